@@ -5,6 +5,7 @@ from pathlib import Path
 from typing import TYPE_CHECKING, Any, Dict, List, Tuple, Union
 
 from parglare import termui
+from parglare import _verif
 from parglare.actions import pass_none
 from parglare.common import (
     ErrorContext,
@@ -349,6 +350,8 @@ class Parser:
                         )
 
                 head.token_ahead = next_token(head)
+                if _verif.ON:
+                    _verif.emit("lr_token", parser=self, head=head)
 
             if debug:
                 h_print(
@@ -383,6 +386,8 @@ class Parser:
                         symbols_before=[cur_state.symbol],
                     )
                 )
+                if _verif.ON:
+                    _verif.emit("lr_error", parser=self, head=head, error=self.errors[-1])
 
                 if self.error_recovery:
                     if self.debug:
@@ -455,6 +460,8 @@ class Parser:
                 )
                 new_head.results = self._call_shift_action(new_head)
                 parse_stack.append(new_head)
+                if _verif.ON:
+                    _verif.emit("lr_shift", parser=self, head=new_head, root=head)
 
                 self.in_error_recovery = False
 
@@ -510,9 +517,13 @@ class Parser:
                 # Calling reduce action
                 new_head.results = self._call_reduce_action(new_head, results)
                 parse_stack.append(new_head)
+                if _verif.ON:
+                    _verif.emit("lr_reduce", parser=self, head=new_head, production=production)
 
             elif act.action is ACCEPT:
                 accepted_head = head
+                if _verif.ON:
+                    _verif.emit("lr_accept", parser=self, head=head)
                 break
 
         if accepted_head:
@@ -989,6 +1000,8 @@ class Parser:
                     level=1,
                 )
                 a_print("New lookahead token is ", head.token_ahead, level=1)
+        if _verif.ON:
+            _verif.emit("lr_recover", parser=self, head=head, error=error, successful=successful)
         return successful
 
     def default_error_recovery(self, head):
